@@ -493,8 +493,9 @@ enum ChildResult {
   Machinery(String),
 }
 
+/// Only descriptors that ARE the input (no generator parameter) count as small inputs.
 fn is_small(d: &str) -> bool {
-  d.len() <= SMALL_INPUT && !d.split(':').any(|p| p.parse::<usize>().map(|n| n > SMALL_INPUT).unwrap_or(false))
+  d.starts_with("did:") && d.len() <= SMALL_INPUT
 }
 fn cpu_limit(d: &str) -> u64 {
   if is_small(d) {
